@@ -9,4 +9,5 @@ EXPLANATION = 'bounded stand-in: batch tools on real directory trees; inputs has
 def bounded_jobs(tier, seed):
     return [
         bj('rcc.b_C17', 'run_batch', tier, seed),
+        bj('rcc.b_C17', 'run_hostile', tier, seed),
     ]
